@@ -428,6 +428,16 @@ func (e *Exec) builtin(s *State, f *Frame, name string, args []Value, key ssa.In
 		return e.copyBuiltin(s, args[0], args[1])
 	case "append":
 		return e.appendBuiltin(s, args[0], args[1], resType)
+	case "SliceData", "unsafe.SliceData":
+		sv, ok := args[0].(*SliceV)
+		if !ok || sv.Base == nil {
+			panic(unsupported("unsafe.SliceData of unknown slice"))
+		}
+		if b, ok := sv.Elem.Underlying().(*types.Basic); !ok || b.Kind() != types.Uint8 {
+			panic(unsupported("unsafe.SliceData of non-byte slice"))
+		}
+		return &PtrV{Ref: sv.Base.extend(PElem{Index: sv.Off}), Nil: sv.Nil,
+			raw: &addrInfo{base: sv.Base, idx: sv.Off, lo: sv.Off, hi: c.Add(sv.Off, sv.Len)}}
 	case "ssa:wrapnilchk":
 		return args[0]
 	case "ssa:deferstack":
